@@ -18,7 +18,7 @@ CHECK = {
     "tests": [
         T("vfsdir", "TestC13DirectoryModel",
           {"checks": 2000, "shards": 4, "timeout": 300, "steps": 40},
-          {"checks": 24000, "shards": 16, "timeout": 1500, "steps": 60}),
+          {"checks": 16000, "shards": 12, "timeout": 1500, "steps": 60}),
     ],
 }
 META = {
